@@ -8,6 +8,9 @@ source text of /repo on every run by `harness/pycode.py`).
 * `quantityHash_eq_model`: with `_hash` as state, an absent memo hashes `Intern.hashKey` (the `(category, tuple(unit, exp))`
   list with the caption appended) and stores it; `quantityHash_memo`: a present memo is returned untouched - so two
   equal quantities hash alike whatever `hash` is (`Intern.eq_hash`).
+* `quantityReduce_eq_model`: the generated `__reduce__` on the cells of a live object is `Intern.reduce` (the items and the
+  caption, `None` for the empty caption); `obtainReduced_eq_model`: the generated `_ObtainReduced` with `ObtainQuantity` =
+  `Intern.obtain … (.dict items true) .none caption` is `Intern.obtainReduced` (C07: `pickle_roundtrip_eq`).
 Core Lean only.
 -/
 import Barril.Gen.CodeQeq
@@ -44,5 +47,15 @@ theorem quantityHash_eq_model {H : Type} (hashOf : List (Sym × Sym × Int) × S
 theorem quantityHash_memo {κ H : Type} (hashOf : κ × Sym → H) (c : κ) (cap : Sym) (m : H) :
     quantityHash hashOf c cap (some m) = .ok (some m, m) := by
   simp [quantityHash, PyRt.slotGet]
+
+theorem quantityReduce_eq_model (s : Intern.State) (q : Intern.Quantity) :
+    (Intern.cellsOf s q).map (fun cs => (quantityReduce cs q.caption).2) = Intern.reduce s q := by
+  unfold Intern.reduce quantityReduce
+  cases Intern.cellsOf s q with
+  | none => rfl
+  | some cs => by_cases h : q.caption = 0 <;> simp [h]
+
+theorem obtainReduced_eq_model (db : Db) (s : Intern.State) (st : List (Sym × Intern.Cell) × Option Sym) :
+    obtainReduced (fun cs cap => Intern.obtain db s (.dict cs true) .none cap) st = Intern.obtainReduced db s st := rfl
 
 end Barril.Bridge.Qeq
